@@ -538,9 +538,25 @@ func (c *Change) lowLevelPerform(as *Assumptions) error {
 // makes it difficult to create the full list of changes and then
 // clean-up repeated mountpoints. In any case using this is still
 // needed to handle mount namespaces created by older snapd versions.
+//
+// Dir and fstype alone are still not enough: the synthetic bind mount that a
+// mimic creates for an existing sub-directory has the same dir and fstype
+// ("none") as a layout or parallel-instance bind mount on that directory, so
+// the identifier also carries the mount source and the options.
 type mountEntryId struct {
-	dir    string
-	fsType string
+	dir     string
+	fsType  string
+	name    string
+	options string
+}
+
+func makeMountEntryId(entry *osutil.MountEntry) mountEntryId {
+	return mountEntryId{
+		dir:     entry.Dir,
+		fsType:  entry.Type,
+		name:    entry.Name,
+		options: strings.Join(entry.Options, ","),
+	}
 }
 
 // neededChanges is the real implementation of NeededChanges
@@ -612,7 +628,7 @@ func neededChanges(currentProfile, desiredProfile *osutil.MountProfile) []*Chang
 		}
 		skipDir = "" // reset skip prefix as it no longer applies
 
-		mountId := mountEntryId{dir, current[i].Type}
+		mountId := makeMountEntryId(&current[i])
 		if current[i].XSnapdOrigin() == "rootfs" {
 			// This is the rootfs setup by snap-confine, we should not touch it
 			logger.Debugf("reusing rootfs")
@@ -661,7 +677,7 @@ func neededChanges(currentProfile, desiredProfile *osutil.MountProfile) []*Chang
 	// Unmount entries not reused in reverse to handle children before their parent.
 	unmountOrder := unsortedCurrent
 	for i := len(unmountOrder) - 1; i >= 0; i-- {
-		if reuse[mountEntryId{unmountOrder[i].Dir, unmountOrder[i].Type}] {
+		if reuse[makeMountEntryId(&unmountOrder[i])] {
 			changes = append(changes, &Change{Action: Keep, Entry: unmountOrder[i]})
 		} else {
 			var entry osutil.MountEntry = unmountOrder[i]
@@ -677,8 +693,9 @@ func neededChanges(currentProfile, desiredProfile *osutil.MountProfile) []*Chang
 	}
 
 	var desiredNotReused []osutil.MountEntry
-	for _, entry := range desired {
-		if !reuse[mountEntryId{entry.Dir, entry.Type}] {
+	for i := range desired {
+		entry := desired[i]
+		if !reuse[makeMountEntryId(&entry)] {
 			desiredNotReused = append(desiredNotReused, entry)
 		}
 	}
